@@ -55,12 +55,12 @@ def generate(rng: random.Random, tier: str):
                     yield markop_case(fam, doc, a, c, False, None, m.type)
                 else:
                     yield markop_case(fam, doc, a, c, False, None, None)
-            for _ in range(6 if quick else 25):
+            for _ in range(12 if quick else 40):
                 md = S.marky_doc(rng, g)
                 a, c = S.rand_range(rng, md)
                 if rng.random() < 0.5:
                     a, c = 0, md.content.size
-                m = S.rand_mark(rng, sc)
+                m = S.excluding_mark(rng, sc, md) if rng.random() < 0.5 else S.rand_mark(rng, sc)
                 r = rng.random()
                 if r < 0.5:
                     yield markop_case(fam, md, a, c, True, m, None)
